@@ -14,7 +14,7 @@ def scan(path, root='SvModel'):
         m = re.match(r'theorem\s+(\S+)', line)
         if m:
             full = '.'.join(ns + [m.group(1)])
-            key = ns[-1] if ns else ''
+            key = ns[-1].split('.')[-1] if ns else ''
             out.setdefault(key, []).append(full)
     return out
 if __name__ == '__main__':
